@@ -145,7 +145,7 @@ def warm_memo(w):
                         pass
 
 
-def build_and_query(ops, queries, setup=None, caching=False, then_ops=()):
+def build_and_query(ops, queries, setup=None, caching=False, then_ops=(), warm=True):
     """Execute builder ops on a fresh world, (optionally: switch neighbor caching on, warm every memo, run `then_ops`),
     snapshot, then run queries.  Returns dict or None."""
     from edgegraph.structure import Vertex
@@ -157,7 +157,8 @@ def build_and_query(ops, queries, setup=None, caching=False, then_ops=()):
             setup(w)
         if caching:
             Vertex.NEIGHBOR_CACHING = True
-            warm_memo(w)
+            if warm:
+                warm_memo(w)
         for op in then_ops:
             w.do(op)
         snap = w.snapshot()
